@@ -116,7 +116,7 @@ def tu_for(o, d, kind):
 class EvalSetup:
     """one optimizer evaluation with oracle functors: script + everything the obligations need"""
 
-    def __init__(self, o, d, N, K, fl, kind, rho_mode, seed, tau_sign, costs='o3', key='ev'):
+    def __init__(self, o, d, N, K, fl, kind, rho_mode, seed, tau_sign, costs='o3', key='ev', ex='serial'):
         self.o, self.d, self.N, self.K, self.fl, self.kind, self.costs = o, d, N, K, fl, kind, costs
         rng = C.rng_for(seed, key, o, d, N, K, kind, flags_str(fl))
         s = self.s = D.Script()
@@ -149,7 +149,7 @@ class EvalSetup:
         set_flags(s, 'O', fl)
         s.add('opt.rho O', self.rho)
         s.add('opt.steps O', K)
-        eval_cmd(s, 'O', 'E', self.xs, costs=costs, tag='e0')
+        eval_cmd(s, 'O', 'E', self.xs, ex=ex, costs=costs, tag='e0')
         s.add('opt.spline O SP')
         s.add('opt.energy O EN')
 
